@@ -99,6 +99,7 @@ def _obs_array(ra, other_dt):
     o = {"k": "obs"}
     o["len"] = guarded(lambda: len(ra))
     o["size"] = guarded(lambda: int(ra.size))
+    o["ndim"] = guarded(lambda: int(ra.ndim))
     o["dtype"] = guarded(lambda: str(ra.dtype))
     o["shape0"] = guarded(lambda: int(ra.shape[0]))
     o["lengths"] = guarded(lambda: [int(x) for x in ra.shape[1]])
@@ -239,6 +240,7 @@ def _expected_array(rows, dt, other_dt):
     o = {"k": "obs"}
     o["len"] = canon(len(rows))
     o["size"] = canon(sum(lens))
+    o["ndim"] = canon(2)
     o["dtype"] = canon(str(dt)) if False else {"k": "other", "v": repr(str(dt))}
     o["shape0"] = canon(len(rows))
     o["lengths"] = canon(lens)
